@@ -475,7 +475,12 @@ func TestCheck(t *testing.T) {
 	rec(nil)
 	// other value types and fault paths on a thinner slice of the file sets
 	base := len(scenarios)
-	for i := 0; i < base; i += c.Pick(17, 7) {
+	stride := c.Pick(17, 7)
+	faultStride := stride
+	if base/faultStride > 400 {
+		faultStride = base / 400 // the corrupted-input child has a fixed deadline: at most about 400 fault scenarios
+	}
+	for i := 0; i < base; i += stride {
 		s := scenarios[i]
 		for _, typ := range []string{"integer", "unsigned", "string", "boolean"} {
 			s2 := s
@@ -483,6 +488,9 @@ func TestCheck(t *testing.T) {
 			scenarios = append(scenarios, s2)
 		}
 		for _, fault := range []string{"corrupt-block", "replace-error"} {
+			if i%faultStride >= stride {
+				continue
+			}
 			s2 := s
 			s2.fault = fault
 			scenarios = append(scenarios, s2)
@@ -571,8 +579,15 @@ func TestCheck(t *testing.T) {
 			}
 		}()
 	}
+	fed, capped := 0, ""
+	feedStart := time.Now()
 	for _, s := range scenarios {
+		if c != nil && c.Thorough() && time.Since(feedStart) > 40*time.Minute {
+			capped = fmt.Sprintf("deadline 40m reached after %d of %d scenarios", fed, len(scenarios))
+			break
+		}
 		ch <- s
+		fed++
 	}
 	close(ch)
 	wg.Wait()
@@ -592,7 +607,11 @@ func TestCheck(t *testing.T) {
 		c.Violation(x.sig, x.viol, map[string]any{"scenario": x.sc})
 	}
 	enginePart(t, c)
-	c.AddCount("file-sets x modes x sizes x types x faults", evals, distinct, true, map[string]any{"files_per_set": nfiles, "scenarios": len(scenarios)},
+	extra := map[string]any{"files_per_set": nfiles, "scenarios": len(scenarios), "scenarios_run": fed}
+	if capped != "" {
+		extra["capped"] = capped
+	}
+	c.AddCount("file-sets x modes x sizes x types x faults", evals, distinct, capped == "", extra,
 		scenarios[len(scenarios)/3].String(), scenarios[2*len(scenarios)/3].String())
 	report.ExitCode = c.Finish()
 }
